@@ -293,13 +293,16 @@ let exec (s : t) (verbose : bool) (f : string array) (obs : string option) : str
         | (OpenOk (d, k), _) -> let (k2, _) = db_close d k in s.disk <- k2; "ok"
         | (OpenErr (e, k), _) -> s.disk <- k; "err " ^ eerr_name e))
   | "openopts" ->
-    let base = { o_dir_empty = false; o_fsize_pos = true; o_ratio_ok = true; o_bps = n_of_int 1048576; o_sync = N0 } in
+    let base = { o_dir_empty = false; o_fsize_pos = true; o_ratio_ok = true; o_bps = n_of_int 1048576; o_sync = N0;
+                 o_index = n_of_int 3 } in
     let o = match f.(2) with
       | "dirpath" -> { base with o_dir_empty = true }
       | "fsize0" | "fsizeneg" -> { base with o_fsize_pos = false }
       | "ratio" | "rationeg" -> { base with o_ratio_ok = false }
       | "bps" -> { base with o_bps = n_of_int (16 * 1024 * 1024 + 1) }
       | "thresh0" -> { base with o_sync = n_of_int 2; o_bps = N0 }
+      | "index0" -> { base with o_index = N0 }
+      | "index9" -> { base with o_index = n_of_int 9 }
       | _ -> base in
     if check_options o then "ok" else "err options"
   | "openbad" ->
